@@ -101,6 +101,13 @@ func (a *CreateSnapshot) Execute(ctx context.Context, tx *ent.Tx) error {
 		return err
 	}
 
+	// snapshots are deleted together with their topic and must not outlive it: a
+	// snapshot taken once the topic is gone would never be cleaned up and would
+	// keep the deleted topic from ever being pruned
+	if sub.Edges.Topic == nil || sub.Edges.Topic.DeletedAt != nil {
+		return ErrNotFound
+	}
+
 	create := tx.Snapshot.Create().
 		SetID(uuid.New()).
 		SetName(a.params.Name).
